@@ -78,6 +78,10 @@ VERSIONS = {
     'v3': {'geo/src/lib.rs': '#[typeshare]\npub struct Point { pub x: u32, pub y: u32 }\n',
            'app/src/lib.rs': 'use geo::Point;\n#[typeshare]\npub struct Holder { pub p: Point }\n'},
 }
+# an earlier tree had a crate named `codable`: in Swift folder mode its module file is Codable.swift, the very file that later
+# has to hold CodableVoid
+VERSIONS['v4'] = {'codable/src/lib.rs': '#[typeshare]\npub struct Packet { pub n: u32 }\n',
+                  'app/src/lib.rs': '#[typeshare]\npub struct Holder { pub n: u32 }\n'}
 RUN_LANGS = [('typescript', 'ts'), ('kotlin', 'kt'), ('swift', 'swift')]
 
 
@@ -125,7 +129,8 @@ def runs_case(exe, lang, ext, mode, seq):
 
 
 def scenario_runs(exe, mode_arg, payload):
-    """C17 bound: all sequences of 1..3 runs over 3 source-tree versions (rename of equal length, type removed) x {single file,
+    """C17 bound: all sequences of 1..2 runs over 4 and of 3 runs over 3 source-tree versions (rename of equal length, type removed, crate
+    named `codable` replaced) x {single file,
     output folder} x {typescript, kotlin, swift}; after every run each file the run wrote is compared with a run into an empty
     location; an immediately repeated run must leave every modification time unchanged."""
     if mode_arg == 'check':
@@ -137,12 +142,12 @@ def scenario_runs(exe, mode_arg, payload):
     for (lang, ext) in RUN_LANGS:
         for mode in ('file', 'folder'):
             for ln in (1, 2, 3):
-                for seq in itertools.product(sorted(VERSIONS), repeat=ln):
+                for seq in itertools.product(sorted(VERSIONS) if ln < 3 else ['v1', 'v2', 'v3'], repeat=ln):
                     n += 1
                     m = runs_case(exe, lang, ext, mode, list(seq))
                     if m:
                         witness({'lang': lang, 'ext': ext, 'mode': mode, 'sequence': list(seq)}, m)
-    print('no failing input among %d run sequences (<=3 runs over 3 versions, 2 output modes, 3 languages)' % n)
+    print('no failing input among %d run sequences (<=2 runs over 4 versions, 3 runs over 3 versions; 2 output modes, 3 languages)' % n)
 
 
 # ------------------------------------------------------------------------------------------------ C20: configuration
@@ -160,6 +165,11 @@ def config_case(exe, case):
             return '[%s]\n%s = "%s"\n\n[%s.type_mappings]\n"DateTime" = "%s"\n' % (key[0], key[1], prefix, key[0], mapped)
         args = ['--lang', lang] + (['--java-package', 'com.x'] if lang == 'kotlin' else [])
         expect_prefix, expect_map = '', None
+        if case.get('outer'):
+            # a second typeshare.toml further up the ancestor chain: the NEAREST one must win
+            with open(os.path.join(top, 'typeshare.toml'), 'w') as f:
+                f.write(toml('Outer', 'OuterDate'))
+            expect_prefix, expect_map = 'Outer', 'OuterDate'
         if case['anc']:
             with open(os.path.join(top, 'ws', 'typeshare.toml'), 'w') as f:
                 f.write(toml('Anc', 'AncDate'))
@@ -215,14 +225,16 @@ def genconfig_case(exe, lang):
 
 
 def scenario_config(exe, mode_arg, payload):
-    """C20 bound: {option absent, empty, given} x {-c file absent, present} x {ancestor typeshare.toml absent, present} x {swift, kotlin}
+    """C20 bound: {option absent, empty, given} x {-c file absent, present} x {ancestor typeshare.toml absent, present} x {a second
+    typeshare.toml further up absent, present} x {swift, kotlin}
     observed through the generated type name and an applied type mapping; plus -g round trip and -g never overwriting."""
     cases = []
     for lang in ('swift', 'kotlin'):
         for cli in (None, '', 'Cli'):
             for file_ in (None, 'File'):
                 for anc in (None, 'Anc'):
-                    cases.append({'lang': lang, 'cli': cli, 'file': file_, 'anc': anc, 'use_c': bool(file_)})
+                    for outer in (False, True):
+                        cases.append({'lang': lang, 'cli': cli, 'file': file_, 'anc': anc, 'outer': outer, 'use_c': bool(file_)})
     if mode_arg == 'check':
         m = genconfig_case(exe, payload['lang']) if payload.get('genconfig') else config_case(exe, payload)
         if m:
@@ -299,17 +311,41 @@ ROBUST = {
     'nested_unknown_list': '#[typeshare(foo = "bar")]\npub struct S { pub a: u32 }\n',
     'deep_cfg': '#[typeshare]\npub struct S { #[cfg(not(any(all(target_os = "a", not(target_os = "b")), feature = "f")))] pub a: u32 }\n',
     'self_reference': '#[typeshare]\npub struct S { pub next: Option<Box<S>>, pub all: Vec<S> }\n',
-    'mutual_reference': '#[typeshare]\npub struct A { pub b: Vec<B> }\n#[typeshare]\npub struct B { pub a: Option<Box<A>> }\n',
+    'mutual_reference': '#[typeshare]\npub struct A { pub b: Vec<B>, pub c: Option<Box<B>> }\n#[typeshare]\npub struct B { pub a: Option<Box<A>>, pub d: Vec<A> }\n',
+    'binary_tree': '#[typeshare]\npub struct TreeNode { pub left: Option<Box<TreeNode>>, pub right: Option<Box<TreeNode>>, pub v: u32 }\n',
+    # inputs that made the pinned tree panic (and, from a walker thread, hang); repaired by fix: commits, kept as regression inputs
+    'empty_tuple_struct': '#[typeshare]\npub struct A();\n',
+    'empty_tuple_variant': '#[typeshare]\n#[serde(tag = "t", content = "c")]\npub enum E { V(), W(u32) }\n',
+    'bare_vec': '#[typeshare]\npub struct S { pub v: Vec }\n',
+    'bare_option': '#[typeshare]\npub struct S { pub v: Option }\n',
+    'bare_hashmap': '#[typeshare]\npub struct S { pub v: HashMap<String> }\n',
+    'bare_box': '#[typeshare]\npub struct S { pub v: Box }\n',
+    'const_item': '#[typeshare]\npub const K: u32 = 1;\n',
+    'unknown_nested_list': '#[typeshare]\npub struct S { #[typeshare(foo(bar))] pub a: u32 }\n',
+    'bare_use': 'use krate;\nuse other::Thing;\n#[typeshare]\npub struct S { pub a: u32 }\n',
 }
-ROBUST_LANGS = ['typescript', 'kotlin', 'swift', 'python', 'go']
+ROBUST_LANGS = ['typescript', 'kotlin', 'swift', 'python', 'go', 'scala', 'scala-nopackage', 'typescript-folder', 'kotlin-folder']
 
 
 def robust_case(exe, name, lang):
+    os.makedirs(WORK, exist_ok=True)
     top = tempfile.mkdtemp(prefix='clirun-', dir=WORK)
     try:
-        src = os.path.join(top, 'src'); tree(src, {'c/src/lib.rs': ROBUST[name]})
-        args = ['--lang', lang, '--target-os', 'a'] + (['--java-package', 'com.x'] if lang == 'kotlin' else []) + (['--go-package', 'p'] if lang == 'go' else [])
-        rc, out = run(exe, args + ['--output-file', os.path.join(top, 'out.txt'), src], cwd=src, timeout=15)
+        src = os.path.join(top, 'src')
+        if name == 'many_files':
+            # more per-file results than the collector channel holds (100): the walk must still terminate
+            tree(src, {'c/src/m%03d.rs' % i: '#[typeshare]\npub struct S%03d { pub a: u32 }\n' % i for i in range(150)})
+        else:
+            tree(src, {'c/src/lib.rs': ROBUST[name]})
+        base = lang.split('-')[0]
+        args = ['--lang', base, '--target-os', 'a'] + (['--java-package', 'com.x'] if base == 'kotlin' else []) + (['--go-package', 'p'] if base == 'go' else [])
+        args += (['--scala-package', 'com.x'] if lang == 'scala' else [])
+        if lang.endswith('-folder'):
+            os.makedirs(os.path.join(top, 'outdir'))
+            args += ['--output-folder', os.path.join(top, 'outdir')]
+        else:
+            args += ['--output-file', os.path.join(top, 'out.txt')]
+        rc, out = run(exe, args + [src], cwd=src, timeout=15)
         if rc == 'timeout':
             return 'the tool did not terminate within 15 s (hang / spin)'
         if 'panicked at' in out or rc not in (0, 1):
@@ -322,19 +358,21 @@ def robust_case(exe, name, lang):
 
 
 def scenario_robust(exe, mode_arg, payload):
-    """C07 bound: 13 edge inputs (malformed nested typeshare lists, non-ASCII and underscore-only identifiers under rename_all, unparsable
-    text, unsupported types, deep cfg nesting, self / mutual references) x 5 languages, each with a 15 s time limit: the tool must exit 0, or
-    non-zero with a diagnostic; never panic, abort or hang.  Inputs that the pinned tree is known to panic on (empty tuple structs / variants,
-    bare `Vec`, `use krate;`, consts for Kotlin/Swift/Scala, Scala without package) are NOT in this corpus: they are out of reach of any
-    contract unit and are listed in DESIGN.md section 10.4 as seen-but-undecided."""
+    """C07 bound: 24 edge inputs (malformed nested typeshare lists, non-ASCII and underscore-only identifiers under rename_all, unparsable
+    text, unsupported types, deep cfg nesting, self / mutual references, empty tuple structs / variants, containers without arguments,
+    unknown nested typeshare(...) lists, a bare `use krate;`, a const) x 9 language / output-mode configurations (incl. Scala with and
+    without a package) + a tree of 150 annotated files, each run with a 15 s time limit: the tool must exit 0, or non-zero with a
+    diagnostic; it must never panic, abort or hang."""
     if mode_arg == 'check':
         m = robust_case(exe, payload['input_name'], payload['lang'])
         if m:
             witness(payload, m)
         print('input passes'); return
     n = 0
-    for name in sorted(ROBUST):
+    for name in sorted(ROBUST) + ['many_files']:
         for lang in ROBUST_LANGS:
+            if name == 'many_files' and lang not in ('typescript', 'kotlin-folder'):
+                continue
             n += 1
             m = robust_case(exe, name, lang)
             if m:
